@@ -219,6 +219,9 @@ def _add(res: RunResult, ob, trace, cfg):
         a.unknown += 1
 
 
+THOROUGH_FACTOR = float(__import__("os").environ.get("PYVC_THOROUGH_FACTOR", "2"))  # time budget per configuration, x quick
+
+
 def verify(spec: FuncSpec, cfg: dict, tier="quick", exclude=()) -> RunResult:
     res = RunResult(spec, cfg)
     t0 = time.time()
@@ -232,7 +235,7 @@ def verify(spec: FuncSpec, cfg: dict, tier="quick", exclude=()) -> RunResult:
         prefix, end_scope = work.pop()
         if _PROGRESS and res.paths % 20 == 0:
             print(f"[progress] {spec.name} {cfg} paths={res.paths} pending={len(work)} t={time.time()-t0:.1f}s solver={res.solver_s:.1f}", flush=True)
-        if time.time() - t0 > spec.max_seconds * (1 if tier == "quick" else 6):
+        if time.time() - t0 > spec.max_seconds * (1 if tier == "quick" else THOROUGH_FACTOR):
             res.undecided.append(f"time budget {spec.max_seconds}s exhausted after {res.paths} paths")
             break
         ctx = PathCtx(prefix, timeout_ms=timeout_ms, max_decisions=spec.max_decisions, end_scope=end_scope)
